@@ -223,9 +223,18 @@ where
     let first_delay = config.delay.get_delay(1);
 
     // If we have more attempts and there's a delay, set up hedge timing
+    // Parallel mode only when no further attempt is configured to wait; a zero first
+    // delay must not discard the delays configured for later attempts
+    let all_immediate = (1..max_attempts).all(|attempt| {
+        config
+            .delay
+            .get_delay(attempt)
+            .map_or(true, |d| d == Duration::ZERO)
+    });
+
     if max_attempts > 1 {
         match first_delay {
-            Some(delay) if delay > Duration::ZERO => {
+            Some(delay) if !all_immediate => {
                 // Latency mode: wait for delay or result
                 let mut delay_fut = std::pin::pin!(tokio::time::sleep(delay));
 
